@@ -1391,6 +1391,10 @@ func (fx *FnCtx) call(v *ssa.Call, c *ssa.CallCommon) {
 				env.bound["arg_"+pn] = args[i]
 				env.bound[fmt.Sprintf("arg%d", i)] = args[i]
 			}
+			// entry_<p>: the value parameter p had on entry (p itself is the variable's current value)
+			for n, pv := range fx.paramTerm {
+				env.bound["entry_"+n] = pv
+			}
 			t, err := env.elabBool(cs.Req.E)
 			if err != nil {
 				fx.errf("binding failure: call clause for %s in %s: %v", fc.Key, fx.key, err)
